@@ -39,7 +39,7 @@ def main():
     tier, seed, replay = E.tier_seed()
     V = E.Verdict(PID, tier, seed)
     rng = random.Random(seed * 334214459 + 19)
-    V.coverage['rule'] = ('TLC: Generators.tla (part "data") - generate_data as a cursor machine (FillGap / PlaceDeclared / FillRest) over every structure of <= 2 (thorough 3) entries '
+    V.coverage['rule'] = ('TLC: GeneratorSession.tla (every session of <= 5 calls on one instance: generate_data with 2 seeds x 2 argument sets, derived-structure calls and foreign RNG use in between; SameSeedSameData) replayed on one real instance and compared with fresh instances; Generators.tla (part "data") - generate_data as a cursor machine (FillGap / PlaceDeclared / FillRest) over every structure of <= 2 (thorough 3) entries '
                           'mixing single indices and index lists with strictly increasing indices below n_features (the form the cursor supports): ShapeExact, DeclaredAtDeclaredIndex, '
                           'OthersDefault.  Every structure is replayed through the real generate_data with pairwise distinguishable domains (cardinality / value list / value+frequency '
                           'pair per entry) and ensure_rep so that the value set of a column identifies which entry produced it; the recorded data sets (also the boundary sweep '
@@ -174,6 +174,53 @@ def main():
         if not (a and b and 'ok' in a and 'ok' in b and a['ok'][0].get('digest') == b['ok'][0].get('digest')):
             V.violation('seed:across-processes', f'the same seed and arguments gave different data sets in two processes: {a} vs {b}', {'kw': kw})
 
+        # ---- sessions on one instance (GeneratorSession.tla): the result of generate_data is a function of (seed, arguments) only
+        wds = E.workdir('c19s')
+        try:
+            SC_ = {'Seeds': '{1, 2}', 'ArgSets': '{"A", "B"}', 'MaxSteps': 4 if tier == 'quick' else 5}
+            cfgd = E.write_cfg(os.path.join(wds, 'dev.cfg'), constants=dict(SC_, ReseedOnlyOnChange='TRUE'), invariants=['SameSeedSameData', 'FreshStart'])
+            rd = E.run_tlc('GeneratorSession', cfgd, timeout=300)
+            E.require_ok(rd, 'GeneratorSession/deviation')
+            if rd.violated not in ('SameSeedSameData', 'FreshStart'):
+                raise E.MachineryError('deviation control ReseedOnlyOnChange did not violate the seed clause')
+            V.notes['deviation_control_session'] = 'ReseedOnlyOnChange=TRUE (re-seed only when the seed differs from the last one) violates ' + rd.violated
+            cfgs = E.write_cfg(os.path.join(wds, 'mc.cfg'), constants=dict(SC_, ReseedOnlyOnChange='FALSE'), invariants=['SameSeedSameData', 'FreshStart', 'Emit'])
+            rs = E.run_tlc('GeneratorSession', cfgs, timeout=600, coverage=True)
+            E.require_ok(rs, 'GeneratorSession')
+            V.add_tlc(rs, 'GeneratorSession')
+            V.tlc_violation(rs, 'GeneratorSession')
+            for a_ in ('Generate', 'Derive', 'Foreign'):
+                if rs.coverage and rs.coverage.get(a_, (0, 0))[0] == 0:
+                    raise E.MachineryError(f'action {a_} never taken')
+            sessions = [[list(st) for st in t[1]] for t in E.extract_tuples(rs.stdout, 'SESSION')]
+        finally:
+            E.cleanup(wds)
+        if not sessions:
+            raise E.MachineryError('no sessions emitted')
+        argsets = {'A': {'n_features': 5, 'n_samples': 30, 'cardinality': 4, 'structure': [[1, 7], [[2, 3], [11, 12, 13]]], 'ensure_rep': True},
+                   'B': {'n_features': 4, 'n_samples': 25, 'cardinality': 6, 'structure': [[0, [5, 6, 9]], [2, [[1, 2], [0.3, 0.7]]]], 'ensure_rep': False}}
+        seeds = {'1': 42 + seed, '2': 7}
+        jobs_s = [{'op': 'gen_session', 'argsets': argsets, 'seeds': seeds, 'sessions': sessions[i:i + 150]} for i in range(0, len(sessions), 150)]
+        got_s = PC.pipe_eval(jobs_s, modules=['gen_ops'])
+        nsess = 0
+        for jb, r_ in zip(jobs_s, got_s):
+            if r_ is None or 'ok' not in r_:
+                V.violation('raises:session', f'generator session failed: {PC.failure_text(r_)}', {'sessions': jb['sessions'][:2]})
+                continue
+            fresh = r_['ok']['fresh']
+            for sess, ob in zip(jb['sessions'], r_['ok']['sessions']):
+                nsess += 1
+                key = f'seed:session={sess}'
+                if 'error' in ob:
+                    V.violation('raises:' + key, f'session raised {ob["error"]}', {'session': sess})
+                    continue
+                for a_, sid, dg in ob['digests']:
+                    if dg != fresh[f'{a_}/{sid}']:
+                        V.violation(key, f'generate_data(args {a_}, seed {seeds[sid]}) inside the session gave data set digest {dg}, a fresh instance gives {fresh[a_ + "/" + sid]}: the same seed and arguments do not reproduce the same data set', {'session': sess, 'argsets': argsets, 'seeds': seeds})
+                        break
+        V.count(evaluations=nsess, nontrivial=nsess, traces=nsess)
+        V.add_sample({'session': sessions[len(sessions) // 2]})
+
         # ---- naive generator and the data_generator task
         nv = PC.pipe_eval([{'op': 'naive', 'sizes': [[31, 60], [100, 3000], [40, 1]]}], modules=['gen_ops'])[0]
         if not nv or 'ok' not in nv:
@@ -208,4 +255,9 @@ if __name__ == '__main__':
         sys.exit(main())
     except E.MachineryError as e:
         print(f'MACHINERY-FAILURE {PID}: {e}', file=sys.stderr)
+        sys.exit(2)
+    except Exception as e:  # unexpected harness error: machinery failure, never a verdict
+        import traceback
+        traceback.print_exc()
+        print(f'MACHINERY-FAILURE {PID}: unexpected {type(e).__name__}: {e}', file=sys.stderr)
         sys.exit(2)
